@@ -61,7 +61,8 @@ Cal == TLCEval([i \in DayIdx |->
    Calendar axiom: 2023-01-01 was a Sunday. *)
 WD(i) == (i + 6) % 7
 
-MonthEnd(i) == Cal[i].d <= 2 \/ Cal[i].d >= DaysIn(Cal[i].y, Cal[i].m) - 1
+(* first day and last two days of a month: the instants the quick tier always covers *)
+MonthEnd(i) == Cal[i].d = 1 \/ Cal[i].d >= DaysIn(Cal[i].y, Cal[i].m) - 1
 
 -----------------------------------------------------------------------------
 (* Event specifications (dawgie.MOMENT with exactly one of day/dom/dow and a
